@@ -315,4 +315,8 @@ def guggParams (icase : Nat) (p0 p1 rt : α) : Option (α × α) :=
 
 def R_KJ_DEG_MOL : α := lit (83147 / 10000000)
 
+/-- `ss_prep(t, …)` (called by `k_temp` when the temperature differs from the solid solution's `tk` by more than 0.01 K):
+`a0 = ag0/(R·t)`, where `ag0 = a0·R·tk` was stored by `ss_calc_a0_a1` -/
+def a0AtT (ag0 t : α) : α := ag0 / (R_KJ_DEG_MOL * t)
+
 end PhreeqcVerif.Assemblage
